@@ -186,3 +186,19 @@ package sio
 //@   ensures[C14] requeued: len(*pending) == old(len(*pending)) + 1 && (*pending)[len(*pending) - 1] == msg
 //@   ensures[C08,C14] reported: len(*emitted) == old(len(*emitted)) + 1 && (*emitted)[len(*emitted) - 1] == msg
 //@   ensures[C08,C14] noerr: err == nil
+
+// ---- reading a persisted crew back (C09) ----
+
+// The state file is decoded by encoding/json in its standard number mode
+// (numbers become float64, which is what the matcher's coercion and the
+// interpreter expect of a reloaded state): no call of Decoder.UseNumber is
+// reachable (its assumed contract has the precondition false under C09), and
+// what is handed out is the decoded store itself.
+//@ func (*Stdio).Read returns ms, err
+//@   safety C09
+//@   requires s != nil
+//@   ensures[C09] decoded: s.StateInputFilename != "" && err == nil ==> ms == s.state
+//@ func (*JSONStore).Read returns ms, err
+//@   safety C09
+//@   requires s != nil
+//@   ensures[C09] decoded: s.StateInputFilename != "" && err == nil ==> ms == s.state
